@@ -217,8 +217,9 @@ def classes : Entry → List String
         | true, true => "NUM_LOG_INTERPOLATE" | false, true => "LOG_INTERPOLATE"
         | true, false => "NUM_INTERPOLATE" | false, false => "INTERPOLATE"] ++ g2.cls ++ [b.cls]
 
-/-- the end value of an interpolation is a number different from zero (the excluded class of
-    `C12_cfg_entries_partial`: MontePy's grammar has no production for an interpolation that ends on a zero) -/
+/-- the end value of an interpolation is a number different from zero.  Until MontePy e8e6f87 this was the
+    excluded class of `C12_cfg_partial` (the grammar had no production for `a nI 0`); it is no hypothesis of any
+    theorem any more and only classifies sentences for the generator's coverage counters. -/
 def interpEndNonzero : Entry → Bool
   | interp _ _ _ _ _ _ b => !b.zero
   | _ => true
